@@ -434,8 +434,9 @@ def r4(R):
     for loop in ast.walk(fn):
         if not isinstance(loop, ast.For):
             continue
-        kc = [(n, c) for n, c in pyfacts.kernel_calls(loop, names=("compute_gv", "score_and_assign"))
-              if pyfacts.containing_stmt(c) in loop.body or getattr(pyfacts.containing_stmt(c), "_parent", None) is loop]
+        kc = [(n, c) for n, c in pyfacts.kernel_calls(loop, names=("compute_gv", "score_and_assign"))]
+        inner_loops = [x for x in ast.walk(loop) if isinstance(x, (ast.For, ast.While)) and x is not loop]
+        kc = [(n, c) for n, c in kc if not any(c in list(ast.walk(il)) for il in inner_loops)]
         names = [n for n, c in kc]
         if "score_and_assign" not in names:
             continue
@@ -449,8 +450,13 @@ def r4(R):
         if not ok:
             continue
         cg, sa = cg[0], sa[0]
-        R.check(cg.lineno < sa.lineno, "C07.R4", m.rel, sa.lineno, qual, "order compute_gv / score_and_assign",
-                "g-vectors must be recomputed for the grain before it is scored")
+        cfg = pyfacts.PyCFG(fn)
+        n_cg, n_sa = cfg.node_of(pyfacts.containing_stmt(cg)), cfg.node_of(pyfacts.containing_stmt(sa))
+        head = cfg.node_of(loop)
+        dom = n_cg is not None and n_sa is not None and cfg.dominates(n_cg, n_sa) and cfg.dominates(head, n_cg)
+        R.check(dom, "C07.R4", m.rel, sa.lineno, qual, "compute_gv dominates score_and_assign inside the grain iteration",
+                "on some path a grain is scored without its g-vectors having been recomputed for its own position in "
+                "this iteration")
         # grain object of the iteration
         gvars = {}
         loopnames = set(n.id for n in ast.walk(loop.target) if isinstance(n, ast.Name))
